@@ -3,7 +3,7 @@
 use serde_json::Value;
 
 use crate::fw::{Batch, CheckSpec, Tier, drive};
-use crate::{Args, eng_codec, eng_disk, eng_hist, eng_rdf, eng_sched, eng_snap, eng_store, eng_twin, eng_txm, eng_vec};
+use crate::{Args, eng_codec, eng_disk, eng_hist, eng_par, eng_rdf, eng_sched, eng_snap, eng_store, eng_twin, eng_txm, eng_vec};
 
 const REAL_TXM: &[&str] = &["grafeo_engine::transaction::TransactionManager (all of manager.rs)"];
 
@@ -14,6 +14,7 @@ pub fn run_check(id: &str, args: &Args) -> i32 {
         "C14" => c14(args),
         "C20" => c20(args),
         "C13" => c13(args),
+        "C17" => c17(args),
         "C10" => c10(args),
         "C18" => c18(args),
         "C07" => c07(args),
@@ -356,6 +357,28 @@ fn c10(args: &Args) -> i32 {
     drive(batch, &|seed, _i| eng_twin::run_one(seed, thorough), Some(&eng_twin::minimise), &mut |_| {})
 }
 
+fn c17(args: &Args) -> i32 {
+    let thorough = args.tier == Tier::Thorough;
+    let n_sched = if thorough { 24 } else { 8 };
+    let spec = CheckSpec {
+        property: "C17",
+        check_name: "C17",
+        level: "exploration",
+        engine: "PAR",
+        rule: format!("one generated table (0, 1, 1023, 1024, 1025, 2048, 3000 or 4097 rows of two integer columns with per-run value domains, duplicates and nulls) and one operator chain (passthrough, filter, sort, distinct, filter+distinct, global aggregate count/sum/min/max, grouped aggregate) run by ParallelPipeline with 1-4 workers, chunk size 1/7/64/1000/2048 and 1024-row morsels, under {n_sched} schedules (random, PCT 2/3): the pipeline's own worker threads run as simulated threads, so which worker gets or steals which morsel and when partial results are appended is the scheduler's choice. Output (partials of breaker chains merged the way the breaker defines) must equal the brute-force sequential evaluation; rows_processed and morsel count must match. Non-trivial = more than one morsel and more than one worker; distinct = distinct scenarios"),
+        real: vec!["grafeo_core::execution::parallel::{ParallelPipeline, MorselScheduler, WorkerHandle, ParallelVectorSource}", "push operators Filter/Sort/Distinct/Aggregate", "crossbeam deque (real code, sequentially consistent interleavings only)"],
+        stub: vec!["std::thread::scope in pipeline.rs (workers become shuttle threads)", "parking_lot blocking paths", "std atomics in scheduler.rs/pipeline.rs (hooked: a scheduling point before each access)"],
+        assumptions: vec!["morsel size is the pressure-level minimum of 1024 rows (config.morsel_size is ignored by effective_morsel_size)".into()],
+        unchecked: vec![
+            "pull-based vs push-based equality, chunk/morsel-size independence of a single-threaded run, merge.rs/fold.rs as functions of their partial inputs: pure functions of (table, chain, configuration), not simulation targets".into(),
+            "spilling operators and ExternalSort (async tokio file I/O; no simulated runtime available)".into(),
+            "ordering of a parallel Sort's output: execute() returns per-worker partials without a merge phase, only the multiset is judged".into(),
+        ],
+    };
+    let batch = Batch { spec, tier: args.tier, seed: args.seed, runs: runs(args, 1_200, 60_000), workers: args.workers };
+    drive(batch, &|seed, _i| eng_par::run_one(seed, n_sched), None, &mut |_| {})
+}
+
 pub fn replay_file(path: &str) -> i32 {
     let text = match std::fs::read_to_string(path) {
         Ok(t) => t,
@@ -381,6 +404,7 @@ pub fn replay_file(path: &str) -> i32 {
         Some("SCHED") => eng_sched::replay(rep, &prop),
         Some("HIST") => eng_hist::replay(rep),
         Some("RDF") => eng_rdf::replay(rep),
+        Some("PAR") => eng_par::replay(rep),
         Some("TWIN") => eng_twin::replay(rep),
         Some("VEC") => eng_vec::replay(rep),
         Some("SNAP") => eng_snap::replay(rep),
